@@ -252,7 +252,13 @@ pub fn exec_one<P: Property>(p: &P, sc: &P::Sc, trace: bool) -> RunOutput {
             let (loc, msg) = LAST_PANIC
                 .with(|p| p.borrow_mut().take())
                 .unwrap_or(("?".into(), "?".into()));
-            if msg.starts_with("SIM-LIVENESS") {
+            if msg.starts_with("SIM-HARNESS") {
+                Err(Violation {
+                    clause: "harness-error".to_string(),
+                    site: String::new(),
+                    detail: format!("{} at {}", msg, loc),
+                })
+            } else if msg.starts_with("SIM-LIVENESS") {
                 Err(Violation {
                     clause: "liveness-seam-call-budget".to_string(),
                     site: String::new(),
@@ -583,6 +589,11 @@ pub fn run_batch<P: Property>(p: &P, opts: &Opts) -> BatchReport {
     founds.sort_by_key(|f| (f.run, f.sub));
     let mut reported = 0;
     for f in founds {
+        if f.v.clause == "harness-error" || f.v.clause == "harness-model" {
+            eprintln!("pkgsim: harness error in run {}: {}", f.run, f.v.detail);
+            harness_error = true;
+            continue;
+        }
         if let Some(k) = known_match(&known, id, &f.v, &f.class) {
             known_lines.push(format!(
                 "KNOWN-FINDING: property={} {} [signature={} class={} hits={}]",
